@@ -484,8 +484,13 @@ func (t *tOps) remove(fd storage.FileDesc) {
 		if t.evictRemoved && t.blockCache != nil {
 			t.blockCache.EvictNS(uint64(fd.Num))
 		}
-		// Try to reuse file num, useful for discarded transaction.
-		t.s.reuseFileNum(fd.Num)
+		// Try to reuse file num, useful for discarded transaction. Unless
+		// the removed table's blocks were evicted above, the block cache
+		// may still hold them under this number and would serve them for
+		// the table that reuses it.
+		if t.blockCache == nil || t.evictRemoved {
+			t.s.reuseFileNum(fd.Num)
+		}
 	})
 }
 
